@@ -40,6 +40,10 @@ def cases(seed, tier):
                         'grp_min': rng.choice([1024, 2048])}
         if rng.random() < 0.08:
             p = {'banner': 'SSH-1.5-OpenSSH_3.0', 'ssh2': False, 'ssh1': {'cmask': 0x48, 'amask': 0x0c, 'hkey_bits': 1024, 'skey_bits': 768}}
+        r3 = gen.case_rng(seed, ID, i, 'mismatch')
+        if r3.random() < 0.04:
+            # a peer that answers every identification line, SSH-2 or SSH-1, with the version-mismatch notice and hangs up
+            p = {'banner': r3.choice(['SSH-1.5-LegacyGate_1.0', 'SSH-1.99-Gate_2', 'SSH-2.0-Gate_3']), 'ssh2': False, 'ssh1': None}
         r2 = gen.case_rng(seed, ID, i, 'repeats')
         if 'kex' in p and r2.random() < 0.2:
             # a peer may list a name more than once; the footprint is per algorithm / key type, not per list entry
